@@ -146,4 +146,16 @@ TEXT = {
                 'property text (row r starts at 2^(R+1) - 2^(R+1-r)).',
         'technique': 'TLA+ model of a pure function family; TLC state graph turned into one implementation test per transition (G->R)',
     },
+    'C13': {
+        'text': 'Model checking plus exhaustive fault enumeration: TLC proves on spec/Serial.tla that a field-completing decoder '
+                'accepts exactly the complete streams under every reader chunking and truncation (and finds the violation for '
+                'the single-Read decoder); Restore is a stuttering action of the API-level specifications, inserted by TLC at '
+                'every point of every behaviour in bounds, after which the real restored instance must be observationally '
+                'identical and evolve identically; on every such state all truncation points x reader policies and all sink '
+                'failure offsets are run against the real code, judged by the relation RestoreOutcome/WriteOutcome and '
+                'trace-validated by TLC.',
+        'design_ref': 'DESIGN.md section 5 (C13)',
+        'note': COMMON_NOTE,
+        'technique': 'TLA+ decoder/reader-contract model checked by TLC; Restore action replayed (G->R) with native fault enumeration; fault events validated by TLC (R->T)',
+    },
 }
